@@ -316,18 +316,12 @@ def cfgs(tier, seed=0):
     quick = tier == 'quick'
     out = []
     for name, cfg in c07.cfgs(tier):
-        if quick and zlib.crc32(name.encode()) % 8:
-            continue
-        if not quick and zlib.crc32(name.encode()) % 2 and 'Rotate' not in name:
-            continue
+        if quick and (zlib.crc32(name.encode()) + seed) % 3:
+            continue                       # quick: a third of the C07 grid, rotated by the seed
         out.append(('C07/' + name, {'build': wrap_in_box(cfg['build'], 'comb'), 'assume': cfg.get('assume')}))
     for name, cfg in c08.cfgs(tier):
-        if quick and zlib.crc32(name.encode()) % 5:
-            continue
         out.append(('C08/' + name, {'build': wrap_in_box(cfg['build'], 'comb'), 'assume': cfg.get('assume')}))
     for name, cfg in c09.cfgs(tier):
-        if quick and zlib.crc32(name.encode()) % 3:
-            continue
         out.append(('C09/' + name, {'build': wrap_in_box(cfg['build'], 'seq')}))
     out += extra_cfgs(tier)
     out += compositions(tier, seed)
